@@ -102,7 +102,8 @@ def bin_completion(binner: Binner, binsize: float, items: List[Any])->BinsArray:
         # cb = current branch
         cb = branches.pop(0)
 
-        for x in cb.items:
+        while cb.items:
+            x = cb.items[0]   # cb.items is replaced at the end of every iteration, so do not iterate over the old list
             # Add a new bin and add x to that bin
             cb.bins = binner.add_empty_bins(cb.bins, 1)
             binner.add_item_to_bin(cb.bins, x, cb.bin_index)
